@@ -557,3 +557,6 @@ fn get_active_chord<'a, T>(
         delay: since,
     }
 }
+
+#[cfg(feature = "verif")]
+mod verif_hooks;
